@@ -24,6 +24,7 @@ import random
 import shutil
 import tempfile
 import threading
+import time
 from concurrent.futures import ThreadPoolExecutor
 from pathlib import Path
 
@@ -446,13 +447,24 @@ def explore(ck: Check, n: int, seed: int, conc_rate: float, exhaustive=True, max
                                     'observed_shapes': int(info['observed'])}
     lab = Lab()
     rng = random.Random(seed)
+    t0 = time.time()
+    phase = {}
+
+    def mark(name):
+        nonlocal t0
+        phase[name] = round(time.time() - t0, 1)
+        t0 = time.time()
     try:
         warmup(lab, ex)
+        mark('warmup')
         hists = (exhaustive_pairs() + directed_concurrent() if exhaustive else []) + [gen_history(rng, conc_rate) for _ in range(n)]
         with ThreadPoolExecutor(WORKERS) as pool:
             list(pool.map(lambda k: lab.oracle(*k), [(ci, v) for v in range(4) for ci in [None] + list(range(NCONF))]))
+            mark('oracle')
             reals = list(pool.map(lambda h: run_real(lab, h), hists))
+            mark('real_runs')
             models = run_models(list(zip(hists, reals)))
+            mark('model')
             seen, nontrivial, shrunk_classes = set(), set(), {}
             kinds = {'runs': 0, 'seq': 0, 'conc': 0, 'conc_paused': 0, 'imports': 0, 'reused': 0, 'compiled': 0, 'hooked_imports': 0}
             confs_used: dict = {}
@@ -506,7 +518,10 @@ def explore(ck: Check, n: int, seed: int, conc_rate: float, exhaustive=True, max
                              f': {json.dumps(detail, sort_keys=True)[:600]}',
                         replay={'history': hs_, 'history_readable': describe(hs_), 'kind': kind, 'failing_run': i + 1, 'module': mod,
                                 'detail': detail, 'unshrunk_history': h}))
+            mark('compare_and_shrink')
         ex.distinct_nontrivial = len(nontrivial)
+        ex.extra['phase_seconds'] = phase
+        ck.log(f'[C16] explore: histories={len(hists)} runs={ex.evaluations} interpreter_runs={lab.runs} phases={phase}')
         ex.extra['distribution'] = kinds
         ex.extra['configurations_used'] = confs_used
         ex.extra['distinct_histories'] = len(seen)
